@@ -83,6 +83,11 @@ def regenerate():
                  120, env=IMPL_ENV)
     if rc != 0:
         raise BuildError("extract_tables failed:\n" + out)
+    # the io_drawer tables of /repo (history-log fields, PTE tables, trace strings of every drawer type)
+    rc, out = sh([PY, os.path.join(VERIF, "harness", "extract_io_tables.py"), os.path.join(COQ, "Gen", "IoTables.v")],
+                 300, env=IMPL_ENV)
+    if rc != 0:
+        raise BuildError("extract_io_tables failed:\n" + out)
 
 
 def make_target(target, timeout=1500):
@@ -117,6 +122,10 @@ def build_binary():
         if rc != 0:
             raise BuildError("ocaml build failed:\n" + out[-3000:])
     return exe
+
+
+# property theorems kept in a second file of the same property
+EXTRA_PROPS = {"C18": ["C18m"]}
 
 
 def check_props(pid):
